@@ -1551,6 +1551,20 @@ func (r *c14Run) runBuild(bc *c14BuildCase) {
 		if o.KB != nil {
 			c.Count(fmt.Sprintf("built-format:%s/kft=%d", k.Kind, o.KB.Format))
 		}
+		if k.Valid && o.KB != nil {
+			want := int32(-1)
+			switch k.Kind {
+			case "rsa-priv", "rsa-pub":
+				want = int32(k.N.V.BitLen())
+			case "ec-priv", "ec-pub":
+				want = int32(c14Curve(k.Curve).Params().BitSize)
+			case "sym":
+				want = int32(8 * len(k.Bytes))
+			}
+			if want >= 0 && o.KB.Len != want {
+				c.Fail("C14/cryptographic-length/"+k.Kind, fmt.Sprintf("built key block announces Cryptographic Length %d for a %d-bit %s key", o.KB.Len, want, k.Kind), bc)
+			}
+		}
 		if !c14WireStable(o) {
 			c.Fail(fmt.Sprintf("C14/slot-disagreement/%s", c14Shape(o)), "the builder's KeyFormatType does not designate the KeyMaterial slot it populated", bc)
 		}
@@ -2253,7 +2267,7 @@ func driveC14(c *h.Ctx) error {
 		for _, bc := range fx.illFormed() {
 			r.runBuild(bc)
 		}
-		n := c.Pick(180, 3000)
+		n := c.Pick(360, 4000)
 		for i := 0; i < n; i++ {
 			bc := c14RandomCase(c.Rng.Fork(uint64(i)), i, thorough)
 			r.runBuild(bc)
